@@ -70,8 +70,8 @@ def runFuel : Nat := 2000
 def newVmSt (cfg : Cfg) (st : St) (ca : Cache Bytes) (ghost : Ghost) : VmSt :=
   let sep := if cfg.menuSep.isEmpty then [0x3a] else cfg.menuSep
   { st := st, ca := ca, sep := sep, ghost := ghost,
-    -- NewVm runs Reset() before WithMenuSeparator is applied: the first menu has the default separator
-    pg := { menu := { (Menu.new) with hasRs := true },
+    -- WithMenuSeparator also applies to the menu NewVm created (fix: commit e32b2bd)
+    pg := { menu := { (Menu.new sep) with hasRs := true },
             sizer := if cfg.outputSize > 0 then some { outputSize := cfg.outputSize } else none } }
 
 /-- `ensureState` on a fresh engine: new state, configured language, LANG flag -/
@@ -267,10 +267,11 @@ def engResetForce (cfg : Cfg) : EM Unit := do
 /-- `Exec(ctx, input)`: returns cont; the error outcome carries Go's (cont, err) as kind
 `"invalid-input"` for the one case where cont is true together with an error. -/
 def exec (env : Env) (cfg : Cfg) (input : Bytes) : EM Bool := do
+  -- the format check comes first (fix: commit): nothing has run, nothing is touched
+  if input.length > 0 && !matchesInput input then fail "invalid-input" else do
   let cont ← engInit env cfg input
   if !cont then pure false else do
   if cfg.resetOnEmpty && input.isEmpty then engResetForce cfg
-  if input.length > 0 && !matchesInput input then fail "invalid-input" else do
   let e ← get
   match e.vm.st.setInput (some input) with
   | .err k => fail k
